@@ -123,6 +123,8 @@ func dcRunFor(prop string) func(t *testing.T, cj []byte, res *vfResult) {
 		var unfinished []string
 		preempts := 0
 		roles := [2]DTLSRole{}
+		sctpNilAt := [2]int{}
+		sctpUp := [2]bool{}
 		pcClosed := [2]bool{}
 		setupErr := ""
 		sendNotOpenOK := true
@@ -202,6 +204,13 @@ func dcRunFor(prop string) func(t *testing.T, cj []byte, res *vfResult) {
 				mu.Lock()
 				defer mu.Unlock()
 				tick++
+				for pi, p := range peers {
+					if p.pc.sctpTransport.sctpAssociation != nil {
+						sctpUp[pi] = true
+					} else if !sctpUp[pi] {
+						sctpNilAt[pi] = tick // no id can have been chosen on this peer yet: open() needs the association
+					}
+				}
 				for _, o := range objs {
 					st, _ := o.d.readyState.Load().(DataChannelState)
 					if n := len(o.states); n == 0 || o.states[n-1] != st {
@@ -471,9 +480,13 @@ func dcRunFor(prop string) func(t *testing.T, cj []byte, res *vfResult) {
 						// one pion chose the id for (an application passing an id that is already taken is
 						// the application's mistake; pion does not check it)
 						auto := func(x *dcObj) bool { return x.side == "local" && !x.explicit }
-						asgLo := func(x *dcObj) int { // pion chose x's id after this step
-							if x.nilAt > x.invAt {
-								return x.nilAt
+						// pion chose x's id after this step: not before CreateDataChannel was called and not
+						// before the peer's SCTP association existed. (The last step at which the channel
+						// object showed no id is *not* a bound: open() reserves the id first and stores it
+						// in the object later.)
+						asgLo := func(x *dcObj) int {
+							if sctpNilAt[x.peer] > x.invAt {
+								return sctpNilAt[x.peer]
 							}
 							return x.invAt
 						}
